@@ -42,6 +42,16 @@ has returned before an ancestor is rescheduled").  This is the only place the tw
 theorem c18_mutex_partial (P : Params) {s : Sys} (h : Reach P false (DoneReturned false) s) : Mutex s :=
   fun dn => mutex_of_inv (h.inv fun _ _ hD => hD) dn
 
+/-- The hypothesis is satisfiable on a run with a restart: here the Done child returns (and its `died` is processed)
+before the GC looks at the dead root, so `DoneReturned` holds at the GC step of the unrepaired model. -/
+example : ∃ s, Reach {} false (DoneReturned false) s ∧ liveCount s ["c"] = 1 ∧ s.nextIid = 4 := by
+  have h : ∃ s, runH {} false (fun s => decide (DoneReturned false s)) (init {})
+      [.sched [], .run 0 ["c"], .sched ["c"], .sig 1 .healthy, .sig 1 .done, .ret 0 .other, .died [] .other,
+       .ret 1 .nil, .died ["c"] .nil, .gc, .sched [], .run 2 ["c"], .sched ["c"]] = some s ∧
+      liveCount s ["c"] = 1 ∧ s.nextIid = 4 := by decide
+  obtain ⟨s, hs, h1, h2⟩ := h
+  exact ⟨s, Reach.of_runH (fun _ hb => of_decide_eq_true hb) _ Reach.init hs, h1, h2⟩
+
 /-- The probe of DESIGN.md §8 #15 as a run of the model: the root fails once while its child, which has signalled
 Healthy and Done, is still running. -/
 def witnessRun : List Act :=
@@ -167,6 +177,8 @@ example : (processGC {} true exTree 7).2 = [(["a"], 750000000), (["b"], 0)] ∧
     ((processGC {} true exTree 7).1.map fun n => (n.dn, n.state, n.bo)) =
       [([], .healthy, 500000000), (["a"], .new, 1125000000), (["b"], .new, 500000000)] := by decide
 
+example : ∃ n ∈ exTree, n.dn = ["a"] ∧ n.state = .dead ∧ parentLive exTree n.dn = true ∧ ready true exTree n.dn = true := by decide
+
 /-- **Restart, system level**: while the processor is alive (supervisor context not cancelled) the GC step is
 enabled, puts the schedule request of `r` in flight, and the processor's next `processSchedule r` starts a
 goroutine for it (arbitrary latency in between = the back-off sleep). -/
@@ -189,6 +201,10 @@ theorem c18_restart_sys (P : Params) (fixed : Bool) {s : Sys} (hk : s.killed = f
       refine ⟨{ s' with pend := s'.pend.erase (.sched r.dn), live := s'.live ++ [⟨s'.nextIid, r.dn, m.inc⟩], nextIid := s'.nextIid + 1 },
         by simp [step, hk, hp, hf, s'], ⟨s.nextIid, r.dn, m.inc⟩, ?_, rfl⟩
       simp [s']
+
+/-- the state of `exRun` just before its second GC: root is DEAD, its Done child has returned, the processor is alive -/
+example : ∃ s, run {} true (init {}) (exRun.take 10) = some s ∧ s.killed = false ∧
+    ∃ n ∈ s.tree, n.dn = [] ∧ n.state = .dead ∧ parentLive s.tree n.dn = true ∧ ready true s.tree n.dn = true := by decide
 
 /-- **Bounded back-off.** In every reachable state every node's back-off interval is at most `MaxInterval`
 (or the initial interval, should that be configured larger); the library randomises it by at most ±50 %. -/
